@@ -359,7 +359,7 @@ def check_C19(tier, seed):
     rp = Report("C19", tier, seed)
     rp.trusted.update(KANI_TRUST)
     G.run_kani_frontend(rp, tier, seed)
-    rp.bounds += ["every byte string of length 0..6 (quick) / 0..10 (thorough), all 256 byte values per position; parse_exponent with up to 12 digits",
+    rp.bounds += ["every byte string of length 0..6 (quick) / 0..8 (thorough), all 256 byte values per position; parse_exponent with up to 12 digits",
                   "the library call is replaced by a logger (what reaches the library and what is returned is checked; the value itself is C01/C02)",
                   "front-end sources are copied from /repo's examples/simple.rs and tests/integration_tests.rs at run time (mechanically trimmed: "
                   "crate attributes, `extern crate`, main/tests removed; two functions made pub)"]
